@@ -1,14 +1,22 @@
 #!/usr/bin/env python3
 """Pretty-print replay files (values decoded from base64)."""
 import json,sys,base64
+def show(o):
+    if 'v' in o and isinstance(o['v'],str):
+        try:
+            d=base64.b64decode(o['v'],validate=True).decode('latin1')
+            if d.isprintable() and len(o['v'])%4==0 and len(o['v'])>=4: o['v']=d
+        except Exception: pass
+    return o
 for f in sys.argv[1:]:
     r=json.load(open(f))
     v=r.get('violation') or {}
     print('==',f, v.get('oracle'),'|',v.get('class'),'|',v.get('detail'))
     s=r['script']
-    print('  ',{k:v for k,v in s.items() if k not in('ops',)})
-    for o in s.get('ops',[]):
-        if 'v' in o and isinstance(o['v'],str):
-            try: o['v']=base64.b64decode(o['v']).decode('latin1')
-            except Exception: pass
-        print('    ',o)
+    print('  ',{k:v for k,v in s.items() if k not in('ops','tasks','schedule')})
+    for o in s.get('ops') or []:
+        print('    ',show(o))
+    for i,t in enumerate(s.get('tasks') or []):
+        print('   task',i)
+        for o in t: print('      ',show(o))
+    if s.get('schedule'): print('   schedule',s['schedule'])
